@@ -46,6 +46,7 @@ func c11Build(seed int64) func(id int, raw json.RawMessage) *Job {
 			return nil
 		}
 		pc := &proto.Case{ID: id, Files: r.files(), Init: json.RawMessage(allOnLocal)}
+		scMaybeProject(pc, r)
 		for i, f := range r.Files {
 			pc.Steps = append(pc.Steps, openStep(f, r.Text[i]))
 		}
@@ -300,6 +301,13 @@ func checkC11(c *Ctx) {
 			fmap[id] = fo
 			fmu.Unlock()
 			pc := &proto.Case{ID: id, Files: edited, Init: json.RawMessage(allOnLocal)}
+			if cfg, ok := j.PC.Files["luahelper.json"]; ok {
+				// the renamed workspace keeps the configuration of the original (project mode)
+				pc.Files = map[string]string{"luahelper.json": cfg}
+				for k, v := range edited {
+					pc.Files[k] = v
+				}
+			}
 			for _, f := range d.r.Files {
 				pc.Steps = append(pc.Steps, openStep(f, edited[f]))
 			}
